@@ -213,8 +213,19 @@ func cnFormula(bonded, rcScaled *big.Int, elapsed int64, yearMs int64) (*big.Rat
 	return exact, p2
 }
 
-// cnOracle checks one block: pre -> post for block (ts, bonded).
-func cnOracle(pre, post cnState, ts int64, bonded *big.Int) (msg string, tags []string) {
+// cnHist: what the oracle knows about the previous block of the history (nil for the first block, whose
+// reference is the stored PrevBlockTS): its time, and whether minting was on when its EndBlocker ran.
+type cnHist struct {
+	TS      int64
+	Minting bool // minting was on and the block was an ordinary one (time not running backwards, no panic)
+	Off     bool // minting was off
+}
+
+// cnOracle checks one block: pre -> post for block (ts, bonded).  The property speaks about the history: "elapsed
+// measured between consecutive block timestamps" and "nothing is minted while minting is disabled or on the first
+// block after activation" — so the reference time is the PREVIOUS BLOCK's time and a block that follows a block with
+// minting off is a first block after activation, whatever timestamp the store still holds.
+func cnOracle(pre, post cnState, ts int64, bonded *big.Int, prev *cnHist) (msg string, tags []string) {
 	B := func(s string) *big.Int { return mustBig(s) }
 	minted := new(big.Int).Sub(B(post.Supply), B(pre.Supply))
 	dFee := new(big.Int).Sub(B(post.FeeCol), B(pre.FeeCol))
@@ -243,6 +254,17 @@ func cnOracle(pre, post cnState, ts int64, bonded *big.Int) (msg string, tags []
 			return fmt.Sprintf("minting disabled but minted %s / enabled=%v", minted, post.Enabled), nil
 		}
 		return "", []string{"disabled"}
+	}
+	if prev != nil && prev.Off {
+		// first block after a re-activation
+		if minted.Sign() != 0 {
+			return fmt.Sprintf("first block after minting was switched on again minted %s (the previous block, at %d, ran with minting off; stored PrevBlockTS %s)",
+				minted, prev.TS, pre.PrevTS), []string{"reactivation"}
+		}
+		return "", []string{"first-block", "reactivation"}
+	}
+	if prev != nil && prev.Minting && B(pre.PrevTS).Sign() != 0 && pre.PrevTS != fmt.Sprint(prev.TS) {
+		return fmt.Sprintf("the elapsed time is not measured from the previous block: PrevBlockTS %s, previous block time %d", pre.PrevTS, prev.TS), nil
 	}
 	if B(pre.PrevTS).Sign() == 0 {
 		if minted.Sign() != 0 {
@@ -371,6 +393,7 @@ func cnRunHist(id string, in cnInput) Case {
 	msg := ""
 	tagset := []string{"hist", fmt.Sprintf("blocks:%d", len(in.Blocks))}
 	nMint := 0
+	var prevBlk *cnHist
 	for i, b := range in.Blocks {
 		bctx := ctx.WithBlockTime(time.UnixMilli(b.TS).UTC()).WithBlockHeight(int64(2 + i))
 		pc := "None"
@@ -411,7 +434,7 @@ func cnRunHist(id string, in cnInput) Case {
 			return fail(fmt.Sprintf("block %d: bonded pool holds %s, wanted %s", i, got, b.Bonded))
 		}
 		if inDom {
-			m, tags := cnOracle(pre, post, b.TS, bonded)
+			m, tags := cnOracle(pre, post, b.TS, bonded, prevBlk)
 			tagset = append(tagset, tags...)
 			if m != "" && msg == "" {
 				msg = fmt.Sprintf("block %d: %s", i, m)
@@ -423,6 +446,13 @@ func cnRunHist(id string, in cnInput) Case {
 			}
 		} else {
 			tagset = append(tagset, "ood:huge-values")
+		}
+		{
+			// an ordinary minting block: minting on, time not behind the reference, supply not above the maximum
+			// (otherwise the implementation keeps the old reference: negative formula amount, outside the statement)
+			ord := pre.Enabled && mustBig(pre.PrevTS).IsInt64() && mustBig(pre.PrevTS).Int64() <= b.TS &&
+				mustBig(pre.Supply).Cmp(mustBig(pre.Max)) <= 0 && bonded.Sign() >= 0 && mustBig(pre.RC).Sign() >= 0 && b.TS != 0
+			prevBlk = &cnHist{TS: b.TS, Minting: ord, Off: !pre.Enabled}
 		}
 		pre = post
 	}
